@@ -162,12 +162,18 @@ func ext۰reflect۰SliceOf(fr *frame, args []value) value {
 
 func ext۰reflect۰TypeOf(fr *frame, args []value) value {
 	// Signature: func (t reflect.rtype) Type
+	if args[0].(iface).t == nil {
+		return iface{}
+	}
 	return makeReflectType(rtype{args[0].(iface).t})
 }
 
 func ext۰reflect۰ValueOf(fr *frame, args []value) value {
 	// Signature: func (interface{}) reflect.Value
 	itf := args[0].(iface)
+	if itf.t == nil {
+		return makeReflectValue(nil, nil)
+	}
 	return makeReflectValue(itf.t, itf.v)
 }
 
@@ -567,6 +573,7 @@ func initReflect(i *interpreter) {
 		"Size":      newMethod(i.reflectPackage, rtypeType, "Size"),
 		"String":    newMethod(i.reflectPackage, rtypeType, "String"),
 	}
+	registerRtypeMethods(i)
 	i.errorMethods = methodSet{
 		"Error": newMethod(i.reflectPackage, errorType, "Error"),
 	}
